@@ -44,37 +44,6 @@ def parr():
     return ArrV((n,), lambda i: tm.app("p_in", i), "f8")
 
 
-def equal_by_cases(lhs, rhs, box, seed, hyp=None):
-    """CAS equality after splitting on every comparison that occurs as an ite condition"""
-    conds = []
-    for t in (lhs, rhs):
-        for nd in tm.postorder(t):
-            if nd.op == "ite" and nd.args[0] not in conds:
-                c = nd.args[0]
-                base = c.args[0] if c.op == "not" else c
-                if base not in conds:
-                    conds.append(base)
-    if len(conds) > 3:
-        raise sx.OutOfSubset("too many case-split conditions")
-    last = None
-    for mask in range(2 ** len(conds)):
-        sub = {c: (tm.TRUE if (mask >> k) & 1 else tm.FALSE) for k, c in enumerate(conds)}
-        h = tm.land(*[(c if (mask >> k) & 1 else tm.lnot(c)) for k, c in enumerate(conds)])
-        if hyp is not None:
-            h = tm.land(h, hyp)
-        l2, r2 = tm.subst(lhs, sub), tm.subst(rhs, sub)
-        if l2 is r2:
-            last = be.Verdict(be.PROVED, "CAS", detail="identical terms")
-            continue
-        v = be.prove_equal_cas(l2, r2, box, hyp=(h if conds or hyp is not None else None), seed=seed, npoints=8)
-        if v.status == be.UNKNOWN and "no evaluable point" in v.detail:
-            continue  # this combination of conditions is empty on the box
-        if v.status != be.PROVED:
-            return v
-        last = v
-    return last or be.Verdict(be.UNKNOWN, "CAS", detail="no case could be evaluated")
-
-
 def build(ctx):
     setup(ctx)
     obs = []
@@ -130,7 +99,7 @@ def build(ctx):
                 e2 = tm.subst(tm.subst(elem, {c: tm.FALSE for c in known_false}), unj)
                 s2 = tm.subst(tm.subst(spec, {c: tm.FALSE for c in known_false}), unj)
                 hyp = tm.land(*[tm.lnot(tm.subst(c, unj)) for c in known_false]) if known_false else None
-                v = equal_by_cases(e2, s2, BOX, ctx.seed, hyp=hyp)
+                v = equal_by_cases(e2, s2, BOX, ctx.seed, hyp=hyp, facts=[tm.subst(f_, unj) for f_ in facts if f_.sort == tm.B])
                 if v.status != be.PROVED:
                     v.detail = f"Fluid.{name}(pressure)[j] != {target.split(':')[1]}(attributes..., pressure[j]): " + v.detail
                     return with_models(v, o)
